@@ -10,7 +10,8 @@ RULE = ("histories over a pool of 3-5 interlinked HasTraits objects (value:Int, 
         "value semantics: pool objects in the same `~class` of the header compare == although distinct, kids:List, byname:Dict, group:Set, add_trait of extra/xchild/items): "
         "0-4 linking mutations, observe of 1-2 random expressions (series, parallel, list/dict/set items, the DSL "
         "`items` expansion, +tag, *, optional traits, ':' vs '.') built with the public expression objects, then "
-        "mutations (reassign, list/dict/set mutators incl. detached containers, same object twice, cycles, None "
+        "mutations (reassign, list/dict/set mutators incl. detached containers, same object twice, lists with repeated "
+        "items under slice / extended-slice assignments that change multiplicities followed by pops, cycles, None "
         "items, default materialisation, add_trait); after EVERY op each Int trait of each pool object is read "
         "and incremented and the notifier population of every trait and container is printed; non-trivial = the "
         "op delivered an event, changed a population or raised; distinct = distinct output line")
@@ -31,8 +32,8 @@ ASSUMPTIONS = ["dispatch='same' only; other dispatchers are modelled-not-verifie
                "add_trait over an existing name keeps its metadata (replacing a trait by one with different "
                "metadata fires no trait_added and is outside the statement)",
                "hooks of a handler whose owner was collected are not judged (they are never called again)",
-               "simplified list mutators only (append/insert/del/setitem/clear/extend with in-range indices); "
-               "slices and the event normal form are C05's subject"]
+               "simplified list mutators only (append/insert/del/setitem/clear/extend, l[i:j]=xs, l[i::step]=xs with "
+               "in-range non-negative indices); the full slice algebra and the event normal form are C05's subject"]
 EXHAUSTIVE = {"quick": False, "thorough": True}
 
 F10_WITNESS = ("obs|3|N,N,N|set 0 child 0;obs 0 0 t.child.0.0 t.child.0.0 then t.value.1.0 then;"
@@ -52,6 +53,11 @@ def corpus():
         "obs|3|N,N,N|obs 0 0 t.kids.1.0 li.1.0 then t.kids.1.0 then li.1.0 then t.value.1.0 then;get 0 kids 100;la 100 0",
         "obs|3|N,N,N|obs 0 0 t.child.1.0 any.1 then;set 0 child 1;addt 1 extra 1;seti 1 extra 4",
         "obs|3|N,N,N|obs 0 0 meta.1 t.value.1.0 then;set 0 mate 1;addt 0 xchild 1;set 0 xchild 2",
+        # repeated items: a same-length slice assignment changes the multiplicities, then a pop
+        "obs|3|N,N,N|setl 0 kids 100 [1,1,2];obs 0 0 t.kids.1.0 li.1.0 then t.value.1.0 then;lsl 100 0 3 [1,2,2];"
+        "ld 100 2;lsl 100 0 2 [2,2];ld 100 0",
+        "obs|3|N,N,N|set 2 child 1;setl 0 kids 100 [1,2,1,2];obs 0 0 t.kids.1.0 li.1.0 then t.child.1.0 t.value.1.0 then then;"
+        "lst 100 0 2 [2,2];ld 100 0;ld 100 0;ld 100 0",
         # value-equal but distinct objects (header `~class`): a dict value replaced by an equal object is
         # re-tracked; an identity- / none-compared trait reports an equal replacement
         "obs|3|N~2,N~1,N~2|setd 1 byname 100 [0:2];obs 0 1 t.byname.1.0 di.1.0 then t.value.1.0 then;ds 100 0 0;ds 100 0 2",
@@ -76,6 +82,8 @@ def generate(rng, tier):
         yield O.history_c08(rng)
     for _ in range(nh // 6):
         yield O.history_eq(rng)
+    for _ in range(nh // 8):
+        yield O.history_mult(rng)
 
 
 def run_impl(case):
